@@ -2543,6 +2543,13 @@ impl TieredEngine {
     pub fn hot_tier(&self) -> &HotTier {
         &self.hot_tier
     }
+
+    /// Verification hook: run the full hot-tier coherence audit on demand
+    /// (the background task only runs it on a timer).
+    #[cfg(kyrodb_verif)]
+    pub fn verif_audit_hot_tier_coherence(&self) -> usize {
+        self.audit_hot_tier_coherence("verification audit")
+    }
 }
 
 fn normalize_in_place_if_needed(distance: DistanceMetric, embedding: &mut [f32]) -> Result<()> {
